@@ -69,6 +69,16 @@ func H_C11_filter() {
 		vassume(name[i] != '/' && name[i] != 0)
 	}
 	evs := vEventsFor(op, dir, name, name2)
+	// the directory after the operation, for code that looks at the file an event names: the directory exists, every name in it
+	// is a regular file whose modification time is long past (a file moved or linked in keeps the mtime of its content), the
+	// name removed or renamed away is gone; the clock (time.Now) runs far ahead of those file times
+	vfs = &vFS{root: "/vfs", dirs: []*vDir{{path: dir}}}
+	vGonePath = ""
+	switch op {
+	case opMoveOut, opUnlink, opRenameInside:
+		vGonePath = dir + "/" + name
+	}
+	defer func() { vGonePath = "" }()
 	fsw := &fsnotify.Watcher{Events: make(chan fsnotify.Event, 8), Errors: make(chan error, 1)}
 	for _, e := range evs {
 		fsw.Events <- e
@@ -90,7 +100,20 @@ func H_C11_filter() {
 		w.tracked = nil
 	}
 	vWatchers = map[*fsnotify.Watcher]*vWatcherState{fsw: {watches: map[string]bool{dir: true}}}
+	// histories: the watcher may already have handled an earlier change (a Spec file rewritten in place) with the same
+	// watch record; what it remembers from that must not make it overlook the operation under test
+	before := 0
+	if !stopped && nondetBool("earlier-change-handled") {
+		fsw0 := &fsnotify.Watcher{Events: make(chan fsnotify.Event, 2), Errors: make(chan error, 1)}
+		fsw0.Events <- fsnotify.Event{Name: dir + "/h.json", Op: fsnotify.Write}
+		close(fsw0.Events)
+		vWatchers[fsw0] = &vWatcherState{watches: map[string]bool{dir: true}}
+		w.watch(fsw0, &mu, func() error { refreshes++; return nil }, map[string]error{})
+		vassert("earlier-change-triggered-a-refresh", refreshes >= 1)
+		before = refreshes
+	}
 	w.watch(fsw, &mu, func() error { refreshes++; return nil }, map[string]error{})
+	refreshes -= before
 	vreach("watcher-loop-returned")
 	vassert("watcher-releases-the-lock", vMutexFree(&mu))
 	// does the operation change the set or the content of Spec files directly inside the directory?
